@@ -191,3 +191,86 @@ func c13ConcCases() []c13ConcCase {
 	}
 	return out
 }
+
+// runC13SaveFault: the k-th write to the store's cache made by SaveSnapshot fails (k = 1, 2); there was an
+// older snapshot or not. Saving must report the error; if it reports success, a fresh instance must
+// reconstruct exactly the database that was saved.
+func runC13SaveFault(kind string, failing int, older bool) (string, []explore.Violation) {
+	id := fmt.Sprintf("%s save with cache write %d failing (older snapshot present: %v)", kind, failing, older)
+	var vs []explore.Violation
+	bad := func(sig, detail string) { vs = append(vs, explore.Violation{Signature: sig, Detail: id + ": " + detail}) }
+	net := sim.NewNet()
+	net.PubSub.AutoDeliver = true
+	pPeer := net.AddPeer("P")
+	P, err := pPeer.Start(nil)
+	if err != nil {
+		return "harness: " + err.Error(), nil
+	}
+	s, err := P.DB.Create(bg, "db", kind, &orbitdb.CreateDBOptions{Replicate: boolp(false)})
+	if err != nil {
+		return "harness: " + err.Error(), nil
+	}
+	addr := s.Address().String()
+	_ = writeAny(s, "r1")
+	_ = writeAny(s, "r2")
+	if older {
+		if _, err := basestore.SaveSnapshot(bg, s); err != nil {
+			return "harness: first save failed: " + err.Error(), nil
+		}
+		_ = writeAny(s, "r3")
+		_ = writeAny(s, "r4")
+	}
+	_ = sim.Quiesce()
+	puts := 0
+	net.Gates.Enable(func(kind, p, key, caller string) bool { return kind == "cache.put" && p == "P" })
+	call := async("SaveSnapshot", func() error { _, err := basestore.SaveSnapshot(bg, s); return err })
+	for i := 0; i < 50; i++ {
+		_ = sim.Quiesce()
+		parked := net.Gates.Parked()
+		if len(parked) == 0 {
+			break
+		}
+		for _, l := range parked {
+			puts++
+			ans := sim.AnswerOK
+			if puts == failing {
+				ans = sim.AnswerFail
+			}
+			_ = net.Gates.Release(l, ans)
+		}
+	}
+	net.Gates.Enable(nil)
+	_ = sim.Quiesce()
+	if !call.finished() {
+		bad("snapshot-save-hangs", "SaveSnapshot has not returned")
+		return "hang", vs
+	}
+	savedSet, savedObs := snapshotState(s)
+	_ = P.Close()
+	_ = sim.Quiesce()
+	if puts < failing {
+		return fmt.Sprintf("skipped: the save makes only %d cache writes", puts), nil
+	}
+	if call.err != nil {
+		return "save reported the fault", vs
+	}
+	P2, err := pPeer.Start(nil)
+	if err != nil {
+		return "harness: " + err.Error(), nil
+	}
+	defer func() { _ = P2.Close(); _ = sim.Quiesce() }()
+	s2, err := P2.DB.Open(bg, addr, &orbitdb.CreateDBOptions{Replicate: boolp(false)})
+	if err != nil {
+		return "harness: " + err.Error(), nil
+	}
+	if err := s2.LoadFromSnapshot(bg); err != nil {
+		bad("saved-snapshot-does-not-load", "SaveSnapshot reported success although one of its cache writes failed, and a fresh instance cannot load it: "+firstLine(err.Error()))
+		return "load failed", vs
+	}
+	_ = sim.Quiesce()
+	gotSet, gotObs := snapshotState(s2)
+	if strings.Join(gotSet, ",") != strings.Join(savedSet, ",") || gotObs != savedObs {
+		bad("snapshot-reload-differs:entries", fmt.Sprintf("SaveSnapshot reported success although one of its cache writes failed; saved %d entries, a fresh instance reloads %d", len(savedSet), len(gotSet)))
+	}
+	return "save succeeded and reloads", vs
+}
